@@ -266,7 +266,8 @@ impl<'a> FontRead<'a> for SimpleGlyph {
 impl FontWrite for SimpleGlyph {
     fn write_into(&self, writer: &mut crate::TableWriter) {
         assert!(self.contours.len() < i16::MAX as usize);
-        assert!(self.instructions.len() < u16::MAX as usize);
+        // validation accepts up to u16::MAX instruction bytes (the length field is a u16)
+        assert!(self.instructions.len() <= u16::MAX as usize);
         let n_contours = self.contours.len() as i16;
         if n_contours == 0 {
             // we don't bother writing empty glyphs
@@ -1488,5 +1489,21 @@ mod tests {
             kurbo::Point::new(1.0, 1.5),
             kurbo::Point::new(2.0, 2.0)
         ));
+    }
+
+    #[test]
+    fn max_instruction_length_compiles() {
+        let mut path = BezPath::new();
+        path.move_to((0., 0.));
+        path.line_to((10., 0.));
+        path.line_to((10., 10.));
+        path.close_path();
+        let mut glyph = SimpleGlyph::from_bezpath(&path).unwrap();
+        glyph.instructions = vec![0x4f; u16::MAX as usize];
+        let bytes = crate::dump_table(&glyph).unwrap();
+        let read = read_glyf::SimpleGlyph::read(read_fonts::FontData::new(&bytes)).unwrap();
+        assert_eq!(read.instructions().len(), u16::MAX as usize);
+        glyph.instructions.push(0);
+        assert!(crate::dump_table(&glyph).is_err());
     }
 }
